@@ -140,6 +140,11 @@ def Cfg.strategiesOf (c : Cfg) (m : Nat) : List Strategy :=
   | some mc => mc.strategies
   | none => []
 
+def Cfg.hasLoad (c : Cfg) (m : Nat) : Bool :=
+  match c.models[m]? with
+  | some mc => mc.hasLoad
+  | none => false
+
 /-- `ExecutionStrategies.get_fastest_strategy().runtime` (`min` keeps the first minimum). -/
 def fastest : List Strategy → Option Int
   | [] => none
@@ -298,10 +303,7 @@ def admitOne (c : Cfg) (now : Int) (st : SState) (tid : Nat) :
         let present := st1.any (fun s => s.mid == t.model && s.tasks.any (fun e => e.tid == tid))
         if present then (st1, none, none)
         else
-          let hasLoad := match c.models[t.model]? with
-            | some mc => mc.hasLoad
-            | none => false
-          if !hasLoad then (st1, none, some "AttributeError")
+          if !(c.hasLoad t.model) then (st1, none, some "AttributeError")
           else (updModel st1 t.model (fun s => s.addTask tid t.deadline), none, none)
 
 /-- `run_admission`: state at the raise point, the cancellations so far, the exception. -/
@@ -311,8 +313,8 @@ def admitAll (c : Cfg) (now : Int) : SState → List Nat → SState × List Nat 
     match admitOne c now st tid with
     | (st1, _, some e) => (st1, [], some e)
     | (st1, cn, none) =>
-      let (st2, cs, e) := admitAll c now st1 rest
-      (st2, (match cn with | some t => [t] | none => []) ++ cs, e)
+      let r := admitAll c now st1 rest
+      (r.1, (match cn with | some t => [t] | none => []) ++ r.2.1, r.2.2)
 
 /-! ### Inference -/
 
@@ -427,8 +429,8 @@ def inferFrom (c : Cfg) (now : Int) : Nat → List WorkerView → SState →
     match inferWorker c now w wv st with
     | (st1, bs, some e, fo) => (st1, bs, some e, fo)
     | (st1, bs, none, fo) =>
-      let (st2, bs2, e, fo2) := inferFrom c now (w + 1) wvs st1
-      (st2, bs ++ bs2, e, fo || fo2)
+      let r := inferFrom c now (w + 1) wvs st1
+      (r.1, bs ++ r.2.1, r.2.2.1, fo || r.2.2.2)
 
 structure Invocation where
   now : Int
